@@ -229,6 +229,7 @@ def h1_h2_h5_influence(ck):
     loops = loop_elements(h)
     covered = set()
     all_accessors = set()
+    n_drivers = []
     for bb, acc, key, line in sites:
         kl = operand_locals(key)
         calls, closure = deps.calls_in_closure(kl, [bb])
@@ -266,6 +267,27 @@ def h1_h2_h5_influence(ck):
         ck.req(not arith, "H5.index_form", "xor:%s" % table, h.where(line),
                "the index selecting the key from table %s is assembled by arithmetic (%s): distinct component values may select the same key "
                "(injectivity of the packing is not established)" % (table, ", ".join(arith[:4])), "index built by conversions only")
+        # H1.every_square: a placement key is folded in for EVERY piece on the board: each loop around the XOR runs over a full
+        # enumeration constant (Color::ALL, Piece::ALL..) or over all set bits of the piece's occupancy; an iterator obtained any other way
+        # (a helper yielding "the two ends", a take(n), a filtered walk) can skip pieces, and positions differing there collide
+        if "board" in flds:
+            for loop, elems, be in loops:
+                if bb not in loop:
+                    continue
+                for lb in sorted(loop):
+                    lt = h.term(lb)
+                    if lt["k"] == "call" and is_iter_next(callee_name(lt)) and not lt["dest"]["p"] and lt["dest"]["l"] in elems:
+                        src = tb.operand(lt["args"][0])
+                        while src[0] in ("ref", "deref") or (src[0] == "call" and src[1].endswith("::into_iter") and len(src[2]) == 1):
+                            src = src[1] if src[0] in ("ref", "deref") else src[2][0]
+                        full = (src[0] == "const" and src[1].split("::")[-1].startswith("ALL")) or (
+                            src[0] == "call" and src[1].endswith("BitBoard::iter_ones") and src[2] and src[2][0][0] == "call"
+                            and src[2][0][1].endswith("Board::piece_occupancy"))
+                        ck.req(full, "H1.every_square", "loop@bb%d" % be[1] if False else "loop:%s" % (src[1].split("::")[-1] if src[0] in ("call", "const") else src[0]),
+                               h.where(lt["line"]),
+                               "a loop around the placement XOR is driven by %s, not by a full enumeration constant or by all set bits of a piece's "
+                               "occupancy: pieces can be left out of the hash" % show(src)[:200], "runs over %s" % show(src)[:80])
+                        n_drivers.append(lb)
         # H5: loop-distinct keys
         for loop, elems, be in loops:
             if bb in loop:
@@ -280,6 +302,7 @@ def h1_h2_h5_influence(ck):
                        "the key %s XORed inside the loop headed at bb%d does not depend on that loop's element: it can be folded in an even number of "
                        "times and cancel" % (show(kt), be[1]),
                        "key index depends on the loop element")
+    ck.floor("H1.every_square", len(set(n_drivers)), 3, "loops around the placement XOR (colours, kinds, squares)")
     for f in RULE_RELEVANT:
         ck.req(f in covered or "*" in covered, "H1.coverage", f, h.where(),
                "no key folded into the hash depends on State::%s: positions differing only in %s collide deterministically "
